@@ -248,13 +248,12 @@ def frames(ctx: Ctx, rows: dict, base: list, rs: RustProgram) -> None:
             ctx.violation("C05.3/frame", f"rust {kind} pops", f"Rust {kind} pops {got} bits, expected {want}", f"{rs.file_for(isa.EVAL_RS)}:{arm['ln']}")
     arm = isa.rs_arm_for(rs, "Call")
     n += 1
-    it = RsInterp(rs, isa.EVAL_RS)
-    pb = [st for st in arm["body"]["stmts"] if st.get("k") == "let" and st["pat"].get("name") == "push_bits"]
-    ctx.need(len(pb) == 1, "Call arm: push_bits binding not found")
     widths = []
-    for bits in (16, 24):
-        env = {"bits": bits, "pc_before": BitVec.sym("pc", 20), "target": BitVec.sym("t", 24), "dest": BitVec.sym("t", 24)}
-        widths.append(it.ev(pb[0]["init"], env))
+    for bits, op_ in ((16, 0x04), (24, 0x05)):
+        # the arm is interpreted up to set_pc; the width it pushed the return address with is read off the push it performed
+        _tgt, log_ = _arm_target(rs, "Call", op_, {"imm": ("some", (BitVec.sym("t", 24), bits)), "mem": None, "mem2": None, "reg3": None, "len": 3 if bits == 16 else 4}, ADDR)
+        pushes_ = [a_ for m_, a_ in log_ if m_ == "push_stack"]
+        widths.append(int(pushes_[0][2]) if len(pushes_) == 1 else None)
     if widths != [16, 24]:
         ctx.violation("C05.3/frame", "rust Call push widths", f"Rust CALL pushes {widths} bits for 16/20-bit targets", f"{rs.file_for(isa.EVAL_RS)}:{arm['ln']}")
     # software interrupt frame: IR pushes PC(3), F(1), IMR(1) as they were *before* the instruction; RETI pops them back in reverse
@@ -285,73 +284,141 @@ def frames(ctx: Ctx, rows: dict, base: list, rs: RustProgram) -> None:
     ctx.instance("C05.3/frames", "CALL/RET 2 bytes, CALLF/RETF 3 bytes, RET merges the current page; Rust arm widths; IR/RETI frame order, widths and old-value capture; RETF target", n, 13)
 
 
+class _StopAtSetPc(Exception):
+    def __init__(self, v: Any):
+        self.v = v
+
+
+class _AddrLin(Lin):
+    """A linear address expression on which masking with the 20-bit address mask is the identity (wrap-around is not modelled on
+    either side of the comparison)."""
+
+    def __and__(self, o: Any) -> Any:
+        if isinstance(o, int) and o == 0xFFFFF:
+            return self
+        return Lin.__and__(self, o)
+    __rand__ = __and__
+
+    def __add__(self, o: Any) -> "Lin":
+        r = Lin.__add__(self, o)
+        return _AddrLin(r.c, r.terms)
+    __radd__ = __add__
+
+
+_STATE = ("host", "state")
+_BUS = ("host", "bus")
+
+
+class _ArmInterp(RsInterp):
+    """Runs one `InstrKind` arm of LlamaExecutor::execute_with up to its first `state.set_pc(..)`: the decoded operands are supplied
+    symbolically, the machine state is a host stand-in.  No local of the arm is referred to by name."""
+
+    def __init__(self, rs: RustProgram, decoded: dict, pc: int):
+        super().__init__(rs, isa.EVAL_RS)
+        self.decoded, self.pc, self.log = decoded, pc, []
+
+    def mcall_hook(self, recv: Any, m: str, args: list, env: dict, e: dict) -> Any:
+        if recv == _STATE:
+            if m == "pc":
+                return self.pc
+            if m == "set_pc":
+                raise _StopAtSetPc(args[0])
+            if m == "get_reg":
+                return BitVec.sym("reg", 24)
+            self.log.append((m, args))
+            return None
+        if m == "decode_with_prefix":
+            return ("okv", self.decoded)
+        if recv == _BUS and m == "load":
+            return BitVec.sym("mem", 24)
+        if m in ("wrapping_add", "wrapping_add_signed") and not (isinstance(recv, int) and isinstance(args[0], int)):
+            r = Lin.of(recv) + args[0]
+            return _AddrLin(r.c, r.terms)
+        return NotImplemented
+
+    def call_hook(self, path: str, args: list, env: dict, e: dict) -> Any:
+        last = path.split("::")[-1]
+        if last == "cond_pass":
+            return True
+        if last == "mask_for":
+            return 0xFFFFF
+        if last == "pop_stack":
+            return BitVec.sym("ret", int(args[3]))
+        if last == "push_stack":
+            self.log.append(("push_stack", args[2:]))
+            return None
+        if last == "reg_name_for_trace":
+            return "r"
+        return NotImplemented
+
+
+def _arm_target(rs: RustProgram, kind: str, opcode: int, decoded: dict, pc: int) -> tuple[Any, list]:
+    arm = isa.rs_arm_for(rs, kind)
+    it = _ArmInterp(rs, decoded, pc)
+    env = {"self": "SELF", "state": _STATE, "bus": _BUS, "entry": {"opcode": opcode, "cond": None, "kind": ("sym", "InstrKind::" + kind)}, "pre": None, "pc_override": None, "prefix_len": 0}
+    try:
+        it.ev(arm["body"], env)
+    except _StopAtSetPc as st:
+        return st.v, it.log
+    except RsNotConst as e:
+        raise AnalysisError(f"execute_with::{kind} (opcode {opcode:#04x}) left the foldable fragment before set_pc: {e}")
+    raise AnalysisError(f"execute_with::{kind} (opcode {opcode:#04x}) does not reach state.set_pc")
+
+
 def rust_formulas(ctx: Ctx, py: PyProgram, rs: RustProgram, rows: dict, base: list, addr: int = ADDR, tag: str = "") -> None:
     ADDR = addr  # noqa: N806
-    it = RsInterp(rs, isa.EVAL_RS)
     rel = rs.file_for(isa.EVAL_RS)
     by = {c.opcode: c for c in base if c.selector is None and c.status == "ok"}
     n = 0
     val16 = BitVec.sym("in0", 8) | (BitVec.sym("in1", 8) << 8)
     val20 = val16 | ((BitVec.sym("in2", 8) & 0x0F) << 16)
-    # JpAbs
-    arm = isa.rs_arm_for(rs, "JpAbs")
-    dest_ifs = [x for x in walk(arm["body"]) if x.get("k") == "let" and x["pat"].get("name") == "dest" and x.get("init", {}).get("k") == "if" and "bits" in expr_text(x["init"]["cond"])]
-    ctx.need(len(dest_ifs) == 1, "JpAbs arm: `let dest = if bits == 16 ..` not found")
-    for op, bits, val in ((0x02, 16, val16), (0x03, 20, val20)):
+    val24 = val16 | (BitVec.sym("in2", 8) << 16)
+    arms_ln = {k: isa.rs_arm_for(rs, k)["ln"] for k in ("JpAbs", "Call", "Ret", "JpRel")}
+
+    def norm(v: Any) -> Lin:
+        # const + symbolic parts: a bit vector whose constant and symbolic bits do not overlap is their sum
+        l_ = Lin.of(v)
+        c = l_.c
+        terms = []
+        for k, bv in l_.terms:
+            cpart = sum((b << i) for i, b in enumerate(bv.bits) if b in (0, 1))
+            sym = BitVec([b if b not in (0, 1) else 0 for b in bv.bits])
+            c += k * cpart
+            if not sym.is_const():
+                terms.append((k, sym))
+        return Lin(c, tuple(terms))
+
+    def same(got: Any, want: Any) -> bool:
+        if isinstance(want, Lin) or isinstance(got, Lin):
+            try:
+                return norm(got) == norm(want)
+            except TypeError:
+                return False
+        return ilfacts.same_value(BitVec.lift(got) & 0xFFFFF, want)
+    # JP mn / JPF lmn, CALL mn / CALLF lmn: the value the arm hands to set_pc, with the operand bytes symbolic
+    for kind, op, bits, val, ln_ in (("JpAbs", 0x02, 16, val16, 3), ("JpAbs", 0x03, 20, val20, 4), ("Call", 0x04, 16, val16, 3), ("Call", 0x05, 24, val24, 4)):
         n += 1
-        env = {"bits": bits, "instr_pc": ADDR, "val": val, "pc_mask": 0xFFFFF}
-        try:
-            got = it.ev(dest_ifs[0]["init"], env)
-        except RsNotConst as e:
-            raise AnalysisError(f"JpAbs target formula left the foldable fragment: {e}")
+        got, _log = _arm_target(rs, kind, op, {"imm": ("some", (val, bits)), "mem": None, "mem2": None, "reg3": None, "len": ln_}, ADDR)
         want = by[op].branches[0][1]
-        if not ilfacts.same_value(got, want):
-            ctx.violation("C05.4/rust-target", key_of(rel, "execute_with::JpAbs", f"dest bits={bits}"), f"Rust JP target for {bits}-bit operands is {_s(BitVec.lift(got))}, Python reports {_s(want)}", f"{rel}:{arm['ln']}")
-    # Call
-    arm = isa.rs_arm_for(rs, "Call")
-    pb = [st for st in arm["body"]["stmts"] if st.get("k") == "let" and st["pat"].get("name") == "push_bits"][0]
-    for op, bits, val in ((0x04, 16, val16), (0x05, 24, val20)):
+        if not same(got, want):
+            ctx.violation("C05.4/rust-target", key_of(rel, f"execute_with::{kind}", f"dest bits={bits}"), f"Rust {'JP' if kind == 'JpAbs' else 'CALL'} target for {bits}-bit operands is {_s(BitVec.lift(got)) if not isinstance(got, Lin) else got}, Python reports {_s(want)}", f"{rel}:{arms_ln[kind]}")
+    # RET: low 16 bits popped, page of the executing instruction
+    n += 1
+    got, _log = _arm_target(rs, "Ret", 0x06, {"imm": None, "mem": None, "mem2": None, "reg3": None, "len": 1}, ADDR)
+    want = (BitVec.sym("ret", 16) | BitVec.const(ADDR & 0xFF0000)) & 0xFFFFF
+    if isinstance(got, Lin) or BitVec.lift(got).bits[:24] != want.bits[:24]:
+        ctx.violation("C05.4/rust-target", key_of(rel, "execute_with::Ret", "dest"), f"Rust RET target {_s(BitVec.lift(got)) if not isinstance(got, Lin) else got} differs from low16(pop) | current page", f"{rel}:{arms_ln['Ret']}")
+    # JR +n / JR -n for every relative-jump opcode: fall-through +- the operand byte
+    for op, r in sorted(rows.items()):
+        if r.cls != "JP_Rel" or op not in by or not by[op].branches:
+            continue
         n += 1
-        env = {"bits": bits, "pc_before": ADDR, "target": val, "dest": val}
-        it.ev(pb["init"], env)
-        got = BitVec.lift(env["dest"]) & 0xFFFFF
-        want = by[op].branches[0][1]
-        if not ilfacts.same_value(got, want):
-            ctx.violation("C05.4/rust-target", key_of(rel, "execute_with::Call", f"dest bits={bits}"), f"Rust CALL target is {_s(got)}, Python reports {_s(want)}", f"{rel}:{arm['ln']}")
-    # Ret: dest = (page | (ret & 0xFFFF)) & 0xFFFFF with page = state.pc() & 0xFF0000
-    arm = isa.rs_arm_for(rs, "Ret")
-    lets = {st["pat"]["name"]: st["init"] for st in arm["body"]["stmts"] if st.get("k") == "let" and st["pat"].get("k") == "p_ident" and st.get("init") is not None}
-    n += 1
-    try:
-        pc = BitVec.sym("pc", 20)
-        env = {"ret": BitVec.sym("ret", 16), "current_page": pc & 0xFF0000}
-        env["page"] = it.ev(lets["page"], env)
-        got = BitVec.lift(it.ev(lets["dest"], env))
-        want = (BitVec.sym("ret", 16) | (pc & 0xFF0000)) & 0xFFFFF
-        cp = expr_text(lets["current_page"]).replace(" ", "")
-        if got.bits[:24] != want.bits[:24] or cp not in ("state.pc()&16711680",):
-            ctx.violation("C05.4/rust-target", key_of(rel, "execute_with::Ret", "dest"), f"Rust RET target {_s(got)} (page from `{cp}`) differs from low16(pop) | current page", f"{rel}:{arm['ln']}")
-    except (KeyError, RsNotConst) as e:
-        raise AnalysisError(f"Ret arm shape changed: {e}")
-    # JpRel signs per opcode
-    arm = isa.rs_arm_for(rs, "JpRel")
-    sets = []
-    for m in walk(arm["body"]):
-        if m.get("k") == "matches" and expr_text(m["e"]) == "entry.opcode":
-            alts = m["pat"]["cases"] if m["pat"].get("k") == "p_or" else [m["pat"]]
-            sets.append({int(a["e"]["v"]) for a in alts})
-    ctx.need(len(sets) == 2, "JpRel arm: opcode sign sets not found")
-    minus_py = {k for k, r in rows.items() if r.cls == "JP_Rel" and r.ops and r.ops[0].kwargs.get("sign") == "-"}
-    plus_py = {k for k, r in rows.items() if r.cls == "JP_Rel" and r.ops and r.ops[0].kwargs.get("sign") == "+"}
-    n += 2
-    if sets[0] != minus_py or sets[1] != plus_py:
-        ctx.violation("C05.4/rust-target", key_of(rel, "execute_with::JpRel", "sign sets"), f"Rust JR sign sets -{sorted(map(hex, sets[0]))} +{sorted(map(hex, sets[1]))} vs Python -{sorted(map(hex, minus_py))} +{sorted(map(hex, plus_py))}", f"{rel}:{arm['ln']}")
-    lets = {st["pat"]["name"]: st["init"] for st in arm["body"]["stmts"] if st.get("k") == "let" and st["pat"].get("k") == "p_ident" and st.get("init") is not None}
-    ft, tg = expr_text(lets.get("fallthrough", {})).replace(" ", ""), expr_text(lets.get("target", {})).replace(" ", "")
-    n += 1
-    if ft != "pc_before.wrapping_add(decoded.lenasu32)&pc_mask" or tg != "fallthrough.wrapping_add_signed(imm)&pc_mask":
-        ctx.violation("C05.4/rust-target", key_of(rel, "execute_with::JpRel", "target formula"), f"Rust JR computes fallthrough=`{ft}` target=`{tg}`; expected pc+len and fallthrough+-imm", f"{rel}:{arm['ln']}")
-    ctx.instance("C05.4/rust-formulas" + tag, f"Rust JP/CALL/RET/JR target formulas folded with symbolic operands vs Python (instruction at {addr:#x})", n, 8)
+        got, _log = _arm_target(rs, "JpRel", op, {"imm": ("some", (BitVec.sym("in0", 8), 8)), "mem": None, "mem2": None, "reg3": None, "len": by[op].n}, ADDR)
+        taken = [t for k_, t in by[op].branches if "False" not in str(k_)]
+        want = taken[0] if taken else by[op].branches[0][1]
+        if not same(got, want):
+            ctx.violation("C05.4/rust-target", key_of(rel, "execute_with::JpRel", f"opcode {op:#04x}"), f"Rust JR target for opcode {op:#04x} is {got!r}, Python reports {want!r}", f"{rel}:{arms_ln['JpRel']}")
+    ctx.instance("C05.4/rust-formulas" + tag, f"Rust JP/CALL/RET/JR arms interpreted up to set_pc with symbolic operands vs Python targets (instruction at {addr:#x})", n, 8)
 
 
 def pc_update(ctx: Ctx, py: PyProgram) -> None:
